@@ -66,8 +66,9 @@ def make_multi(it, order, blocks, D, is_torus=True, history="ctor", lead_axis=0)
         return MI({t: blocks[t] for t in order}, D, is_torus)
     if history == "append":
         m = MI({}, D, is_torus)
-        for t in order:
-            m.append(t[0], t[1], blocks[t])
+        for i, t in enumerate(order):
+            # parities are given modulo 2: every other block is appended with parity + 2
+            m.append(t[0], t[1] + 2 * (i % 2), blocks[t])
         return m
     if history == "copy":
         return MI({t: blocks[t] for t in order}, D, is_torus).copy()
